@@ -706,6 +706,8 @@ def cli_collect(wd, quick, seed):
                     add(prog, ds, 3, ident, what="cores")
                     add(prog, ds, 1, rev, what="reversed")
                     add(prog, ds, 2, inter, what="permuted")
+                    # without the first record of every shared interval (the further ones list equally many SNVs)
+                    add(prog, ds, 1, [i for v in groups_.values() for i in (v[1:] if len(v) > 1 else v)], what="subset")
                 if not quick:
                     # one record of every interval (the j-th of those that have one): each on its own
                     for j in range(depth):
